@@ -17,8 +17,9 @@ is live, a live page holds the reference node `nodeAt` in every slot below an in
 pages that exists is either live too or flagged in `elided_children` and then covers fewer than
 `PAGE_ELISION_THRESHOLD` leaves (the rule of `checkMerkle`); page ids that are not live may hold anything (stale images
 in an overlay or in the cache).  `page_walker::reconstruct_pages` is a parameter with the contract `ReconOK`
-(`T5_seek_recon_contract_satisfiable`: the executable specification the driver runs, and which the real function agrees
-with slot by slot on every differential run, fulfils it).
+(`T5_seek_recon_contract_satisfiable`: the executable specification `reconSpec` fulfils it; **`T5_seek_recon_contract_discharged`
+in `Props/C05_SeekRecon.lean`: the MIRROR of `page_walker.rs` fulfils it — that is the function the driver runs since unit Q35 —
+so `T5_seek_is_proveSpec_unconditional` needs no contract hypothesis**).
 
 Helper lemmas: `Store/SeekRange.lean` (range_bounds), `SeekSpec.lean` (the reference trie along a key),
 `SeekIter.lean` / `SeekLoops.lean` / `SeekFetch.lean` (the two fetches), `SeekWalk.lean` / `SeekSys.lean` (continue_seek),
